@@ -61,4 +61,89 @@ theorem perfect_square_p_iff (up : List Nat) (hl : Limbs up) (hne : up ≠ []) (
 example : perfectSquareP [0xfffffffe00000001] = true ∧ perfectSquareP [0xfffffffe00000002] = false := by
   decide +kernel
 
+/-- The normalising wrapper of mpn_sqrtrem (sqrtrem.c:311-372: even shift count `2c`, a zero low limb for
+    an odd limb count, then `S >> k`, `R + 2·s0·S − s0²` shifted down by `2k` bits): given the contract of
+    mpn_dc_sqrtrem on normalised operands, every call that takes the mpn_dc_sqrtrem path (all but the
+    one-limb operand with the top bit set, which goes to mpn_sqrtrem1) returns `⌊√u⌋` and `u − ⌊√u⌋²`.
+    `high` is the most significant limb `np[nn-1]`, non-zero as the manual requires. -/
+theorem sqrtrem_normalise_ok (u nn high : Nat) (hnn : 0 < nn) (hu1 : high * B ^ (nn - 1) ≤ u)
+    (hu2 : u < (high + 1) * B ^ (nn - 1)) (hp : 0 < high) (hB : high < B)
+    (hbr : ¬(nn = 1 ∧ high ≥ B / 2)) (hdc : DcSpec) :
+    sqrtremVal u nn high = (Nat.sqrt u, u - Nat.sqrt u * Nat.sqrt u) :=
+  sqrtremVal_norm u nn high hnn hu1 hu2 hp hB hbr hdc
+
+-- non-vacuity: a 3-limb operand with 5 leading zero bits (odd limb count and c = 2)
+example : sqrtremVal (0x0712345678abcdef * B ^ 2 + 12345) 3 0x0712345678abcdef
+    = (Nat.sqrt (0x0712345678abcdef * B ^ 2 + 12345),
+       0x0712345678abcdef * B ^ 2 + 12345 - Nat.sqrt (0x0712345678abcdef * B ^ 2 + 12345) ^ 2) := by
+  decide +kernel
+
+/-- mpz_root / mpz_nthroot / mpz_rootrem (mpz/root.c, nthroot.c, rootrem.c), given the contract of
+    mpn_rootrem: an even root of a negative number raises the square-root exception (checked before the
+    zeroth-root division by zero); otherwise the root is `sign(u)·⌊|u|^(1/n)⌋` (truncation toward zero, also
+    for negative `u` with odd `n`), the return value of mpz_root is non-zero exactly when
+    `⌊|u|^(1/n)⌋^n = |u|`, equivalently `root^n = u`, and mpz_rootrem's remainder is `u − root^n`. -/
+theorem mpz_root_sign_flag (u : Int) (n : Nat) (hrr : RootremSpec) :
+    (u < 0 ∧ n % 2 = 0 → mpzRoot u n = .error "sqrtneg" ∧ mpzRootrem u n = .error "sqrtneg") ∧
+    (¬(u < 0 ∧ n % 2 = 0) → n = 0 → mpzRoot u n = .error "div0" ∧ mpzRootrem u n = .error "div0") ∧
+    (¬(u < 0 ∧ n % 2 = 0) → n ≠ 0 → ∃ (root rem : Int) (flag : Bool),
+        mpzRoot u n = .ok (root, flag) ∧ mpzRootrem u n = .ok (root, rem) ∧
+        root = u.sign * (iroot n u.natAbs : Nat) ∧
+        (flag = true ↔ (iroot n u.natAbs) ^ n = u.natAbs) ∧ (flag = true ↔ root ^ n = u) ∧
+        root ^ n + rem = u) := by
+  refine ⟨fun h => ?_, fun h h0 => ?_, fun h h0 => ?_⟩
+  · simp [mpzRoot, mpzRootrem, (mpzRootCore_exc u n false).1 h, (mpzRootCore_exc u n true).1 h, Except.map]
+  · simp [mpzRoot, mpzRootrem, (mpzRootCore_exc u n false).2 h h0, (mpzRootCore_exc u n true).2 h h0,
+      Except.map]
+  · obtain ⟨r0, e0, -⟩ := mpzRootCore_ok u n false hrr h h0
+    obtain ⟨r1, e1, hr1⟩ := mpzRootCore_ok u n true hrr h h0
+    have hr1 := hr1 rfl
+    have hn : 0 < n := Nat.pos_of_ne_zero h0
+    obtain ⟨s1, s2⟩ := iroot_spec n u.natAbs hn
+    generalize iroot n u.natAbs = t at *
+    refine ⟨u.sign * (t : Int), r1, decide (t ^ n = u.natAbs), ?_, ?_, rfl, by simp, ?_, ?_⟩
+    · simp [mpzRoot, e0, Except.map]
+    · simp [mpzRootrem, e1, Except.map]
+    · -- root^n = u ↔ t^n = |u|
+      rw [decide_eq_true_iff]
+      rcases lt_trichotomy u 0 with hu | hu | hu
+      · have hodd : Odd n := Nat.odd_iff.mpr (by have := Nat.mod_two_eq_zero_or_one n; omega)
+        have hab : (u.natAbs : Int) = -u := Int.ofNat_natAbs_of_nonpos (le_of_lt hu)
+        rw [Int.sign_eq_neg_one_of_neg hu, neg_one_mul, Odd.neg_pow hodd]
+        constructor
+        · intro e; have : (t : Int) ^ n = (u.natAbs : Int) := by rw [← e, Nat.cast_pow]
+          rw [this, hab]; ring
+        · intro e; have : ((t : Int)) ^ n = (u.natAbs : Int) := by rw [hab]; linarith
+          exact_mod_cast this
+      · subst hu
+        simp only [Int.natAbs_zero, Nat.le_zero] at s1
+        simp [(Nat.pow_eq_zero.mp s1).1, Nat.ne_of_gt hn]
+      · have hab : (u.natAbs : Int) = u := Int.natAbs_of_nonneg (le_of_lt hu)
+        rw [Int.sign_eq_one_of_pos hu, one_mul]
+        constructor
+        · intro e; have : (t : Int) ^ n = (u.natAbs : Int) := by rw [← e, Nat.cast_pow]
+          rw [this, hab]
+        · intro e; have : ((t : Int)) ^ n = (u.natAbs : Int) := by rw [hab]; exact e
+          exact_mod_cast this
+    · -- root^n + rem = u
+      rw [hr1]
+      have hc : ((u.natAbs - t ^ n : Nat) : Int) = (u.natAbs : Int) - (t : Int) ^ n := by
+        rw [Int.ofNat_sub s1]; push_cast; ring
+      rw [hc]
+      rcases lt_trichotomy u 0 with hu | hu | hu
+      · have hodd : Odd n := Nat.odd_iff.mpr (by have := Nat.mod_two_eq_zero_or_one n; omega)
+        rw [Int.sign_eq_neg_one_of_neg hu, neg_one_mul, Odd.neg_pow hodd,
+          Int.ofNat_natAbs_of_nonpos (le_of_lt hu)]
+        ring
+      · subst hu
+        simp only [Int.natAbs_zero, Nat.le_zero] at s1
+        simp [(Nat.pow_eq_zero.mp s1).1, Nat.ne_of_gt hn]
+      · rw [Int.sign_eq_one_of_pos hu, one_mul, one_mul, Int.natAbs_of_nonneg (le_of_lt hu)]
+        ring
+
+-- non-vacuity: a negative cube and a negative non-cube, an even root of a negative, a zeroth root
+example : mpzRoot (-27) 3 = .ok (-3, true) ∧ mpzRootrem (-30) 3 = .ok (-3, -3) ∧
+    mpzRoot (-4) 2 = .error "sqrtneg" ∧ mpzRoot 5 0 = .error "div0" ∧ mpzRoot (-5) 0 = .error "sqrtneg" := by
+  decide +kernel
+
 end Mpir.Root
